@@ -54,8 +54,9 @@ template <int K, bool HasCtl, bool HasCal>
 struct Impl {
   struct StampedReadingBase {
     int id = 0;
-    Log sensor_model(const Impl&, const Log& s) const { return push(s, "s " + std::to_string(id)); }
-    Log sensor_model(const Impl&, const Log& s, const Cal&) const { return push(s, "s " + std::to_string(id)); }
+    // readings numbered 100 and up are REJECTED by this stand-in filter: it hands back the state it was given
+    Log sensor_model(const Impl&, const Log& s) const { return id < 100 ? push(s, "s " + std::to_string(id)) : s; }
+    Log sensor_model(const Impl&, const Log& s, const Cal&) const { return id < 100 ? push(s, "s " + std::to_string(id)) : s; }
   };
   struct Tag {
     using StateAndVarianceT = Log;
